@@ -80,6 +80,14 @@ def to_it(M, x, by_ref=False, tystr=''):
             if v.variant == 1: return from_list([])
             return from_list([Ref(v.fields, 0) if by_ref else v.fields[0]])
         if v.ty == 'array': return from_refs(v.fields, 0, len(v.fields)) if by_ref else from_list(list(v.fields))
+    if isinstance(v, Agg):
+        key = crate_iter_next(M, v.ty)
+        if key is not None:
+            cell = x if isinstance(x, Ref) else Ref([v], 0)
+            def nxt():
+                r = M.call(key, [cell])
+                return STOP if r.variant == 0 else r.fields[0]
+            return mk(nxt)
     raise Unsupported("not iterable: %r (%s)" % (type(v).__name__ if not isinstance(v, (Native, Agg)) else (v.kind if isinstance(v, Native) else v.ty), tystr[:60]))
 
 def callf(M, f, args):
@@ -194,6 +202,15 @@ def drain(it):
         if x is STOP: return out
         out.append(x)
 
+_CIN = {}
+def crate_iter_next(M, ty):
+    """the `Iterator::next` of a type defined in the crate (found by its signature), or None"""
+    tn = re.sub(r'<.*', '', ty).split('::')[-1]
+    if not re.fullmatch(r'[A-Z]\w*', tn) or tn in ('Range', 'Option', 'Result'): return None
+    if tn not in _CIN:
+        hits = [n for n, b in M.bodies.items() if n.endswith('::next') and re.search(r'\(_1: &mut (?:\w+::)*' + tn + r'(?:<[^)]*>)?\) -> Option<', b.header)]
+        _CIN[tn] = hits[0] if len(hits) == 1 else None
+    return _CIN[tn]
 ADAPT = ('map', 'filter', 'filter_map', 'enumerate', 'rev', 'zip', 'chain', 'skip', 'take', 'cloned', 'copied', 'step_by', 'take_while', 'skip_while', 'by_ref', 'peekable', 'inspect', 'flat_map', 'flatten', 'map_while', 'fuse')
 CONSUME = ('next', 'next_back', 'collect', 'count', 'last', 'nth', 'fold', 'all', 'any', 'find', 'find_map', 'position', 'sum', 'product', 'min', 'max', 'for_each', 'len', 'size_hint', 'rposition', 'unzip', 'partition',
            'min_by_key', 'max_by_key', 'try_fold', 'reduce', 'eq', 'rfind', 'nth_back', 'is_empty')
@@ -202,6 +219,9 @@ def _(M, a, c):
     nm = norm_name(c); fn = nm.split('::')[-1]
     recv = a[0]
     rv = V(recv) if isinstance(recv, Ref) else recv
+    if fn == 'next' and isinstance(rv, Agg):
+        key = crate_iter_next(M, rv.ty)
+        if key is not None: return M.call(key, [recv if isinstance(recv, Ref) else Ref([rv], 0)])
     if isinstance(rv, Agg) and rv.ty == 'Range' and fn == 'next':
         lo, hi = rv.fields
         if M.branch(M.binop('Ge', lo, hi)): return NONE()
